@@ -72,7 +72,7 @@ PROPS = {
     },
     "C13": {
         "level": "proof",
-        "lean_targets": ["LP.Props.C13", "LP.Props.GenTables", "LP.Props.C13Union", "LP.Props.C13UnionNF", "LP.Props.C13Contains", "LP.Props.C13Int", "LP.Props.C13Obs", "LP.Props.C13Count", "LP.Props.C13Status", "LP.Props.C13IntersectNF", "LP.Props.C13PointInt", "LP.Props.C13Hull", "LP.Props.C13Witness", "LP.Props.C13Converse", "LP.Props.C13StatusIff", "LP.Props.C13CountSat"],
+        "lean_targets": ["LP.Props.C13", "LP.Props.GenTables", "LP.Props.C13Union", "LP.Props.C13UnionNF", "LP.Props.C13Contains", "LP.Props.C13Int", "LP.Props.C13Obs", "LP.Props.C13Count", "LP.Props.C13Status", "LP.Props.C13IntersectNF", "LP.Props.C13PointInt", "LP.Props.C13Hull", "LP.Props.C13Witness", "LP.Props.C13Converse", "LP.Props.C13StatusIff", "LP.Props.C13CountSat", "LP.Props.C13PointIntIff"],
         "gen_tables": True,
         "harnesses": [{"name": "h_fset", "quick": 3000, "thorough": 40000, "thorough_env": {"LPV_EXH4": "1"}}],
         "select": lambda t: t[1] == "fset",
